@@ -54,8 +54,25 @@ Theorem traffic_counters :
 Proof. split; [intros; apply transfer_counts; [exact eq_refl|assumption]|exact other_ops_keep_counters]. Qed.
 Print Assumptions traffic_counters.
 
+(* datagrams: for every sequence of datagrams and every pattern of acceptance by the sink, the counter holds exactly
+   the payload bytes of the datagrams that were relayed; a dropped datagram leaves it alone *)
+Theorem datagram_counter_is_delivered_bytes :
+  forall offers, count_datagrams METRICS_COUNT_SENT_DATAGRAMS_ONLY offers = delivered_datagram_bytes offers.
+Proof.
+  intros offers. change METRICS_COUNT_SENT_DATAGRAMS_ONLY with true.
+  unfold count_datagrams, delivered_datagram_bytes. cbn [negb].
+  generalize 0%N. induction offers as [|o r IH]; intros a; cbn [fold_left]; [reflexivity|].
+  rewrite Bool.orb_false_r. apply IH.
+Qed.
+Print Assumptions datagram_counter_is_delivered_bytes.
+
+Example ex_counting_offered_datagrams_overcounts :
+  count_datagrams false [(100, true); (100, false); (100, true)]%N = 300%N
+  /\ delivered_datagram_bytes [(100, true); (100, false); (100, true)]%N = 200%N.
+Proof. split; reflexivity. Qed.
+
 Theorem code_facts :
-  METRICS_NAMES_AND_LABELS = true /\ METRICS_COLLECT_OWN_REGISTRY = true /\ METRICS_GUARDS_AS_MODELLED = true
+  METRICS_COUNT_SENT_DATAGRAMS_ONLY = true /\ METRICS_NAMES_AND_LABELS = true /\ METRICS_COLLECT_OWN_REGISTRY = true /\ METRICS_GUARDS_AS_MODELLED = true
   /\ METRICS_UPLOAD_IS_INBOUND = true /\ METRICS_COUNT_SENT_BYTES_ONLY = true /\ METRICS_LISTENER_AS_MODELLED = true.
 Proof. repeat split; exact eq_refl. Qed.
 Print Assumptions code_facts.
